@@ -185,6 +185,10 @@ SStreamGone(o, how) ==
   [o1 EXCEPT !.tracked = {}, !.stream = IF @ = "live" THEN how ELSE @]
 
 SFault(o, op) == [o EXCEPT !.faults = Append(@, op)]
+(* the transport refused the write of the response bearing `id`: the response is consumed, its request is over *)
+SFaultSend(o, id) ==
+  LET o1 == IF id \in TrackedIds(o) THEN Untrack(EndInc(o, HOf(o, id), "answered"), id) ELSE o
+  IN [o1 EXCEPT !.faults = Append(@, "send")]
 SPanic(o) == [o EXCEPT !.panic = TRUE]
 SSpin(o) == [o EXCEPT !.spin = TRUE]
 
@@ -253,12 +257,17 @@ SPollEnd(o, res, infl, timers) ==
       \* a refusal written into the transport's buffer and left there when the channel goes idle has not been received
       o4b == IF quiet /\ res = "pending" /\ o.unflushed > 0 /\ o.lastflush # "pending" /\ o.thrUnfl
               THEN Bad(o4, "C12", "refused request's throttle response left unflushed when the channel went idle", "") ELSE o4
+      \* a refused response write does not leave its request counted: the poll that reports the write error already shows it
+      \* (a request read in this very poll is tracked by the channel although it has not been handed over yet)
+      o4c == IF res = "err" /\ o.faults # <<>> /\ (\A i \in DOMAIN o.faults : o.faults[i] = "send")
+                 /\ infl > hi + (IF o.read.id >= 0 THEN 1 ELSE 0)
+              THEN Bad(o4b, "C11", "request still counted in flight after the write of its response failed", "") ELSE o4b
       o5a == IF o.read.id >= 0 /\ ~o.read.dup /\ ~o.read.amb /\ res \in {"pending", "item", "end"}
-              THEN LET b8 == Bad(o4b, "C08", "request read but neither yielded, refused nor a duplicate", "") IN
+              THEN LET b8 == Bad(o4c, "C08", "request read but neither yielded, refused nor a duplicate", "") IN
                    IF o.limit >= 0 /\ o.read.omin >= o.limit
                      THEN Bad(b8, "C12", "request read at the limit was neither handed over nor answered with a throttle error", "")
                      ELSE b8
-              ELSE o4b
+              ELSE o4c
       \* the channel died (without any injected fault) while a request it had read at its limit was still unanswered
       o5 == IF quiet /\ res = "err" /\ o.read.id >= 0 /\ ~o.read.dup /\ o.limit >= 0 /\ o.read.omin >= o.limit
               THEN Bad(o5a, "C12", "refused request did not receive its throttle response", "") ELSE o5a
